@@ -7,7 +7,7 @@ def add(id, built, engine, technique, text, note, ref):
 
 
 add("C01", True, "E1-enumerator", "exhaustive small-scope enumeration of (pose, pose, measurement[, offset]) alphabets; oracle = 5-point central difference of the edge's own error through the implementation's boxplus",
-    "Every odometry/landmark edge configuration over the finite pose alphabets (all sign orthants, w<0, w=0, Hurwitz units, +-pi seam, rotated offsets, large translations) is evaluated; each analytic Jacobian column is compared with a 5-point derivative at 2e-8 relative tolerance. Bounded exhaustive: holds for every combination of the alphabet, no claim for other reals.",
+    "Every odometry/landmark edge configuration over the finite pose alphabets (all sign orthants, w<0, w=0, Hurwitz units, +-pi seam, rotated offsets, large translations) is evaluated; each analytic Jacobian column is compared with a 5-point derivative at 1e-9 relative tolerance. Bounded exhaustive: holds for every combination of the alphabet, no claim for other reals.",
     "alphabet members only; derivative oracle trusts the implementation's calc_error and boxplus (C02/C09 own those); SE(2) wrap set excluded as the property states", "DESIGN.md 4 C01")
 add("C02", True, "E1-enumerator", "exhaustive enumeration of edge/graph configurations vs an independent homogeneous-matrix / Hamilton-product reference model (float and exact Fraction tiers)",
     "All single-edge configurations over the pose alphabets x information alphabet and all small edge multisets are compared with the reference error / chi2; consistency (chi2 = 0 iff measurement agrees), non-negativity and linearity in Omega are checked on every member.",
